@@ -5,6 +5,18 @@ import os
 import vlib
 
 PROJ = "logger"
+
+MANIFEST = dict(
+    engine="logger",
+    technique="Coq proof (invariant by induction over all interleavings + level/shape lemmas) on a model regenerated in part "
+              "from the source; in-Coq evaluation of the model against the real loggers",
+    text="Machine-checked Coq theorems over the logger model: emitted iff level >= threshold for SimpleLogger and the slog adapter, "
+         "LevelOff/NoOp silent, record shape (own prefix, message, all arguments in order), and for every interleaving of any number "
+         "of goroutines each emitted line carries the label of the level it was logged at. Level constants, prefixes, the comparison "
+         "operator, format strings, the slog level mapping and the lock discipline are regenerated from the Go source on every run; the "
+         "model's emit functions are compared inside Coq with the real loggers on the full level x threshold x argument matrix, and a "
+         "concurrent stress run checks every line's label (the Go runtime's interleaving itself is observed, not proved).",
+    design_ref="6 C18")
 LV = [-8, -4, 0, 4, 8]
 NAMES = ["TRACE", "DEBUG", "INFO", "WARN", "ERROR"]
 
